@@ -444,7 +444,8 @@ class Poly(meta(metaclass=PolyMeta)):
                                v if v == 1 else v ** other) # Avoid casting
                               for k, v in iteritems(self._data)),
                   zero=self.zero)
-    return reduce(operator.mul, [self.copy()] * (other - 1) + [self])
+    return reduce(operator.mul, [self.copy() for unused in range(other - 1)]
+                                + [self]) # One copy for each factor
 
   def __truediv__(self, other):
     if isinstance(other, Poly):
